@@ -1,6 +1,6 @@
 """Single source for MANIFEST.json (bin/mkmanifest)."""
 
-HOOK_COMMITS = ["673019b", "625d9ba"]
+HOOK_COMMITS = ["673019b", "625d9ba", "1d37b76"]
 FIX_COMMITS = ["12c9092", "3e9b6da", "a55c868"]   # filled by bin/mkmanifest callers: /repo commits that add guarded hooks
 
 NOTES = ("All checks: bin/check <id>. Exit 0 = held, 1 = VIOLATION line + replay file, 2 = tool error (never a verdict). "
@@ -71,6 +71,15 @@ CHECKS["C32"] = dict(engine="tlc+vh", level="model_checking", ref="4.19", techni
 CHECKS["C33"] = dict(engine="tlc+vh", level="model_checking", ref="4.19", technique="TLA+ spec (Coordinator.tla: Avail / SweepSet / Heartbeat) ; recorded planner choices, sweep results and heartbeat effects of the real Coordinator validated by TLC (CoordTrace.tla invariant RC33)",
                      text="On every recorded plan the chosen workers must be available in the recorded pre-state and equal the pinned worker when that is available; every recorded sweep must mark exactly the ready workers whose heartbeat is older than the timeout; a heartbeat must make an unhealthy worker ready.",
                      note=COORD_NOTE)
+
+DISP_NOTE = ("Trusted: TLC, hook H6 (handed log). Bounded: every program of <= 2 streams and sampled 3-stream programs from a 9-stream pool, inputs <= 4 events over 2 types x 2 values, "
+             "every batch split, every additive-load point. No joins/timers/connectors.")
+CHECKS["C16"] = dict(engine="tlc+vh", level="model_checking", ref="4.8", technique="TLA+ spec (Dispatch.tla) of the dispatch loops evaluated by TLC on every program/input/split of the bound; each case replayed through process, process_batch, process_batch_sync; error-delta against the faithful model",
+                     text="TLC decides path equality on the faithful queue machine (violated: recorded findings); the real engine's three output sequences must equal each other except exactly where, and how, the faithful model predicts.",
+                     note=DISP_NOTE)
+CHECKS["C17"] = dict(engine="tlc+vh", level="model_checking", ref="4.8", technique="TLA+ spec (Dispatch.tla: handed pairs) evaluated by TLC; hook H6 records every (stream, event) pair handed to a pipeline on all three paths, incl. streams loaded after traffic; compared with the routing reference",
+                     text="For every case the multiset of (stream, event) pairs handed to pipelines by the real engine must equal the routing reference of the model (each routed event once per consuming stream, none elsewhere) on every path.",
+                     note=DISP_NOTE)
 
 NOT_APPLICABLE = {
     "C41": "parser totality over arbitrary strings: no state/transition system to specify; a TLA+ model would only enumerate token strings (fuzzing under another name)",
